@@ -227,6 +227,24 @@ def concrete_playback(crate, harness, cbmc_args=(), features=None, timeout=900, 
     return [t for t in tests if not t["is_cover"]] + [t for t in tests if t["is_cover"]]
 
 
+def synthetic_inputs(n_calls=160):
+    """Fixed family of input streams for the replay of a counterexample the solver found but could not print."""
+    out = []
+    for c in (0, 1, 2, 3, 5, 7, 255):
+        out.append([[c] * 8 for _ in range(n_calls)])
+    x = 0x9E3779B97F4A7C15
+    for m in (2, 3, 4, 5, 6, 8, 16, 256):
+        for _rep in range(4):
+            q = []
+            for _ in range(n_calls):
+                x = (x * 6364136223846793005 + 1442695040888963407) & (2 ** 64 - 1)
+                v = (x >> 33) % m
+                hi = ((x >> 20) & 0xFF) if m == 256 else 0
+                q.append([v, hi, 0, 0, 0, 0, 0, 0])
+            out.append(q)
+    return out
+
+
 def native_replay(crate, harness, bytes_list, features=None, profiles=("dev", "release", "miri")):
     """Run the same harness body natively with the recorded values.
     Returns (reproduced: bool, how: str, detail)."""
@@ -468,6 +486,26 @@ def check_kani_property(prop, spec, tier):
                 attempts_all.append({"check": t["check"], "attempts": attempts})
                 if ok:
                     reproduced, chosen = True, t
+                    break
+        if not reproduced and not [t for t in tests if not t["is_cover"]]:
+            # The solver found the assertion violable but the tool chain produced no concrete values for it (observed:
+            # CBMC aborts in bits2expr while building the trace of a counterexample that contains an array of
+            # zero-sized elements). The verdict stands; to show it against the real code, run the same harness body
+            # natively on a fixed family of small input streams and accept a run only if it fails IN THE SAME CHECK
+            # (same assertion text or source line) the solver reported.
+            wanted = [f for f in r["failed"] if f["cat"] not in INCONCLUSIVE_CATS]
+            for cand in synthetic_inputs():
+                ok, how2, attempts = native_replay(gcrate, h, cand, features=features, profiles=("dev",))
+                if not ok:
+                    continue
+                tail = attempts[-1]["tail"]
+                if any((f["desc"] and f["desc"] in tail) or (f["loc"] and f["loc"] != "unknown:unknown" and f["loc"] + ":" in tail)
+                       for f in wanted):
+                    t = {"check": "synthetic input stream (no solver trace available): " + wanted[0]["desc"], "bytes": cand,
+                         "is_cover": False}
+                    tests = [t] + tests
+                    attempts_all.append({"check": t["check"], "attempts": attempts})
+                    reproduced, chosen, how = True, t, how2
                     break
         rdir = os.path.join(WORK, "replay")
         os.makedirs(rdir, exist_ok=True)
